@@ -222,3 +222,174 @@ Proof.
     unfold TreeNorm.norm_text. destruct (keep || false); [|destruct (E.only_ws c)]; cbn [flat_map TK.events3 app]; try reflexivity;
       match goal with |- context [cstr ?x] => destruct (cstr x) end; reflexivity.
 Qed.
+
+(* ---- THROUGH <Data>: the forest of the union tree as items, the builder's frames threaded through it (Proofs/TreeBuildData.v) ---- *)
+From Wbxml Require Proofs.TreeBuildData.
+Module TD := Wbxml.Proofs.TreeBuildData.
+
+Definition items_of_events (evs : list event) : list TD.item :=
+  flat_map (fun ev => match ev with EvChars b => [TD.IChars b] | _ => [] end) evs.
+
+Lemma ev_items_of_events evs : forallb MG.is_chars evs = true -> flat_map TD.ev_of (items_of_events evs) = evs.
+Proof.
+  induction evs as [|x r IH]; [reflexivity|]. cbn [forallb]. intros H. apply andb_true_iff in H. destruct H as [Hx Hr].
+  destruct x; try discriminate. cbn [items_of_events flat_map app TD.ev_of]. f_equal. exact (IH Hr).
+Qed.
+
+Section ItU.
+Variable acan : E.tagname -> list E.attr -> E.attr -> E.bytes.
+Variable tev : bool -> option E.tagname -> E.bytes -> list event.
+Variable sy : bool.
+Variable edoc : N -> list E.node -> E.bytes.
+Variable wa : bool.
+Hypothesis tev_chars : forall f p c, forallb MG.is_chars (tev f p c) = true.
+
+Fixpoint itU (first : bool) (par : option E.tagname) (n : E.node) : list TD.item :=
+  match n with
+  | E.NElt tag attrs ch =>
+    [TD.IElt (TK.tag_event tag) (if wa then map (D5.attr_event5 (acan tag attrs)) attrs else [])
+             ((fix go (f : bool) (l : list E.node) : list TD.item :=
+                 match l with [] => [] | x :: r => itU f (Some tag) x ++ go false r end) true ch)]
+  | E.NText c => items_of_events (tev first par c)
+  | E.NCData ch => items_of_events (MG.chars (D6.cdata_of sy ch))
+  | E.NTree lid roots => items_of_events (MG.chars (edoc lid roots))
+  | E.NPi => []
+  end.
+
+Lemma ev_itU : forall n first par, flat_map TD.ev_of (itU first par n) = D6.events6 acan tev sy edoc wa first par n.
+Proof.
+  fix IH 1. intros n first par. destruct n as [tag attrs ch|c|ch| |lid roots]; cbn [itU D6.events6].
+  - cbn [flat_map TD.ev_of app]. rewrite app_nil_r. f_equal. f_equal.
+    generalize true at 1 2 as f. induction ch as [|x r IHr]; intros f; [reflexivity|]. rewrite flat_map_app, (IH x f (Some tag)), (IHr false). reflexivity.
+  - apply ev_items_of_events. apply tev_chars.
+  - apply ev_items_of_events. apply chars_is_chars.
+  - reflexivity.
+  - apply ev_items_of_events. apply chars_is_chars.
+Qed.
+End ItU.
+
+(* the root element's forest *)
+Definition kids_union (tblb : list E.blang) (L : lang) (o : E.options) (tag : E.tagname) (ch : list E.node) : list TD.item :=
+  let e := E.enc_env (D2.to_blang L) o in
+  (fix go (f : bool) (l : list E.node) : list TD.item :=
+     match l with [] => [] | x :: r => itU (UN.acan_u L) (UN.tev_u L e (E.o_keep_ws o)) (E.is_syncml (E.e_lang e)) (D6.emb_doc tblb e) (E.has_attr_table e) f (Some tag) x ++ go false r end) true ch.
+
+(* the builder on the events the union theorem specifies, THROUGH <Data>: the tree is the root with the children of the frame
+   that TreeBuildData.bis computes - every text, CDATA section and embedded tree outside <Data> a text node (merged), and a Data
+   element with one run of character data decided by syncml_data_type of the frames built so far *)
+Theorem build_union_through_data tblb TBL L o lv tag attrs ch f' :
+  let e := E.enc_env (D2.to_blang L) o in
+  let t := TK.tag_event tag in
+  let a := if E.has_attr_table e then map (D5.attr_event5 (UN.acan_u L tag attrs)) attrs else [] in
+  forallb TD.iwf (kids_union tblb L o tag ch) = true ->
+  (not_data t = true \/ forallb TD.is_ielt (kids_union tblb L o tag ch) = true) ->
+  TD.bis TBL lv 106 [] (mk_frame t a [] None) (kids_union tblb L o tag ch) = Some f' ->
+  build TBL lv (C6.doc_events6 tblb L e (UN.acan_u L) (UN.tev_u L e (E.o_keep_ws o)) (E.NElt tag attrs ch))
+  = BOk (mk_wtree (l_id L) 106 (Some (TElt t a (f_done f')))).
+Proof.
+  cbv zeta. intros Hw Hd Hb. set (e := E.enc_env (D2.to_blang L) o) in *.
+  pose proof (TD.build_doc TBL lv 106 (l_id L) _ _ _ f' Hw Hd Hb) as H.
+  unfold C6.doc_events6. cbn [D6.events6]. 
+  assert (Hk : flat_map TD.ev_of (kids_union tblb L o tag ch)
+               = (fix go (f : bool) (l : list E.node) : list event :=
+                    match l with [] => [] | x :: r => D6.events6 (UN.acan_u L) (UN.tev_u L e (E.o_keep_ws o)) (E.is_syncml (E.e_lang e)) (D6.emb_doc tblb e) (E.has_attr_table e) f (Some tag) x ++ go false r end) true ch).
+  { clear Hw Hd Hb H. unfold kids_union. fold e. generalize true at 1 2 as f. induction ch as [|x r IHr]; intros f; [reflexivity|].
+    rewrite flat_map_app, (ev_itU _ _ _ _ _ (fun f0 p c => tev_u_chars L e (E.o_keep_ws o) f0 p c) x f (Some tag)), (IHr false). reflexivity. }
+  rewrite Hk in H. exact H.
+Qed.
+
+(* ... composed with the parser.  The union theorem of the encoder gives the parser's events only MODULO merge_chars; inside a Data
+   element whose type is an embedded document the builder is NOT indifferent to how the character data is cut (each piece would be
+   parsed on its own), so here the events are required exactly (the parser reports one OPAQUE as one event; exporting that is
+   wbxmlenc's: hypothesis data_events_exact) *)
+Theorem roundtrip_union_through_data tblb TBL L o lv tag attrs ch f' bs forced :
+  let e := E.enc_env (D2.to_blang L) o in
+  let t := TK.tag_event tag in
+  let a := if E.has_attr_table e then map (D5.attr_event5 (UN.acan_u L tag attrs)) attrs else [] in
+  (* data_events_exact *)
+  parse_with TBL forced 0 (S (length bs)) bs = POk (C6.doc_events6 tblb L e (UN.acan_u L) (UN.tev_u L e (E.o_keep_ws o)) (E.NElt tag attrs ch)) ->
+  forallb TD.iwf (kids_union tblb L o tag ch) = true ->
+  (not_data t = true \/ forallb TD.is_ielt (kids_union tblb L o tag ch) = true) ->
+  TD.bis TBL lv 106 [] (mk_frame t a [] None) (kids_union tblb L o tag ch) = Some f' ->
+  tree_from_wbxml TBL forced 0 lv bs = BOk (mk_wtree (l_id L) 106 (Some (TElt t a (f_done f')))).
+Proof.
+  cbv zeta. intros Hp Hw Hd Hb. unfold tree_from_wbxml. rewrite Hp. exact (build_union_through_data tblb TBL L o lv tag attrs ch f' Hw Hd Hb).
+Qed.
+
+(* ---- the unforced reading on the union, with the public-id field of the abstract document as a NAMED hypothesis (for the wide
+   fragment it is proved: ConvWideUnforced.strict_decode_of_encoding3_pub; for the union it is wbxmlenc's to export) ---- *)
+From Wbxml Require Proofs.ConvRoundTrip Proofs.ConvWideUnforced.
+Module CWU := Wbxml.Proofs.ConvWideUnforced.
+
+Definition union_pub_field (TBL : list lang) (L : lang) (e : E.env) (bs : E.bytes) : Prop :=
+  forall d evs, bs = serialize d -> denote_with TBL (Some L) d = Some evs ->
+    (Proofs.EncWbxmlAbs.header_pid e = None -> wd_pub d = PubNum (E.header_public_id e)) /\
+    (forall p, Proofs.EncWbxmlAbs.header_pid e = Some p ->
+       exists i, wd_pub d = PubIdx i /\ str_at (wd_strtbl d) i = Some p /\ blen (wd_strtbl d) < 4294967296).
+
+Theorem roundtrip_union_choice tblb TBL L o tag attrs ch bs forced :
+  let e := E.enc_env (D2.to_blang L) o in
+  D2.vals_ok L = true -> UN.side_u L = true -> Proofs.EncWbxmlAbs5.tag_tbl_ok e = true ->
+  D6.tree_ok6 L (UN.aok_u L) (UN.tok_u L (E.o_keep_ws o)) (UN.cok_plain L) (UN.eok_plain tblb e L) (E.is_syncml (E.e_lang e)) 0 true None (E.NElt tag attrs ch) = true ->
+  find (fun x => l_id x =? l_id L) TBL = Some L -> CWU.lang_choiceW TBL L e forced -> union_pub_field TBL L e bs ->
+  E.o_version o < 4 -> E.header_public_id e < 4294967296 -> E.header_public_id e <> 0 ->
+  (match Proofs.EncWbxmlAbs.header_pid e with Some p => D2.okb p = true | None => True end) ->
+  E.len bs < 4294967296 ->
+  E.enc_wbxml tblb (D2.to_blang L) o [E.NElt tag attrs ch] = E.EOk bs ->
+  no_data (C6.doc_events6 tblb L e (UN.acan_u L) (UN.tev_u L e (E.o_keep_ws o)) (E.NElt tag attrs ch)) = true ->
+  forall ef, tree_from_wbxml TBL forced 0 ef bs = BOk (mk_wtree (l_id L) 106 (hd_error (tn_union tblb L o (E.NElt tag attrs ch)))).
+Proof.
+  cbv zeta. intros HV HSD HTB HT HFind Hch Hpubf Hv H1 H0 Hpid Hlen He Hnd ef.
+  destruct (UN.strict_decode_union tblb TBL L o tag attrs ch bs HV HSD HTB HT HFind Hv H1 H0 Hpid Hlen He)
+    as (d & evs & Hbs & _ & Hden & _ & HM).
+  destruct (Hpubf d evs Hbs Hden) as [Hpub Hpubt].
+  subst bs.
+  assert (Hp : parse_with TBL forced 0 (S (length (serialize d))) (serialize d) = POk evs).
+  { destruct Hch as [[[-> Hid] | [-> [Hp1 Hfp]]] | [-> (p & Hp & Hfp)]].
+    - apply (parse_denote_with TBL (fun l0 _ _ => typed_wv_agree_proved) typed_datetime_agree_proved (l_id L) (Some L) d); [|exact Hden].
+      split; [reflexivity|]. split; [exact Hid|exact HFind].
+    - apply (parse_denote TBL (fun l0 _ _ => typed_wv_agree_proved) typed_datetime_agree_proved d).
+      apply (Proofs.ConvRoundTrip.denote_unforced TBL L d); [|exact Hden].
+      rewrite Hpub.
+      + unfold lang_of_pub.
+        replace (E.header_public_id (E.enc_env (D2.to_blang L) o) =? 1) with false by (symmetry; apply N.eqb_neq; exact Hp1).
+        replace (u32_okb (E.header_public_id (E.enc_env (D2.to_blang L) o))) with true by (symmetry; unfold u32_okb; apply N.ltb_lt; exact H1).
+        replace (E.header_public_id (E.enc_env (D2.to_blang L) o) =? 0) with false by (symmetry; apply N.eqb_neq; exact H0).
+        cbn [negb orb]. exact Hfp.
+      + unfold Proofs.EncWbxmlAbs.header_pid. replace (E.header_public_id (E.enc_env (D2.to_blang L) o) =? 1) with false by (symmetry; apply N.eqb_neq; exact Hp1).
+        reflexivity.
+    - apply (parse_denote TBL (fun l0 _ _ => typed_wv_agree_proved) typed_datetime_agree_proved d).
+      apply (Proofs.ConvRoundTrip.denote_unforced TBL L d); [|exact Hden].
+      destruct (Hpubt p Hp) as (i & Hi & Hs & Hb). rewrite Hi. unfold lang_of_pub.
+      assert (Hlt : i < blen (wd_strtbl d)).
+      { unfold str_at in Hs. destruct (i <? blen (wd_strtbl d)) eqn:El; [apply N.ltb_lt; exact El|discriminate]. }
+      replace (u32_okb i) with true by (symmetry; unfold u32_okb; apply N.ltb_lt; lia).
+      replace (i =? 4294967295) with false by (symmetry; apply N.eqb_neq; lia).
+      cbn [negb andb]. rewrite Hs. exact Hfp. }
+  (* from here as in roundtrip_union *)
+  unfold tree_from_wbxml. rewrite Hp. unfold tn_union.
+  set (e := E.enc_env (D2.to_blang L) o) in *. set (wa := E.has_attr_table e) in *.
+  set (acan := UN.acan_u L) in *. set (tev := UN.tev_u L e (E.o_keep_ws o)) in *. set (sy := E.is_syncml (E.e_lang e)) in *.
+  set (edoc := D6.emb_doc tblb e) in *.
+  assert (Htc : forall f p c, forallb MG.is_chars (tev f p c) = true) by (intros f p c; apply tev_u_chars).
+  revert HM Hnd. unfold C6.doc_events6. fold wa sy edoc. cbn [D6.events6 tnu].
+  set (kidsE := (fix go (f : bool) (l : list E.node) : list event :=
+                   match l with [] => [] | x :: r => D6.events6 acan tev sy edoc wa f (Some tag) x ++ go false r end) true ch).
+  set (kidsT := (fix go (f : bool) (l : list E.node) : list tnode :=
+                   match l with [] => [] | x :: r => tnu acan tev sy edoc wa f (Some tag) x ++ go false r end) true ch).
+  set (t := TK.tag_event tag).
+  intros HM Hnd. cbn [hd_error].
+  cbn [EV.merge_chars EV.glue app] in HM.
+  destruct (merge_head evs _ _ HM eq_refl) as (r1 & -> & HM1).
+  destruct (merge_head r1 _ _ HM1 eq_refl) as (r2 & -> & HM2).
+  unfold no_data in Hnd. cbn [forallb app] in Hnd. apply andb_true_iff in Hnd as [_ Hnd]. apply andb_true_iff in Hnd as [Ht Hn2].
+  fold (no_data ((kidsE ++ [EvEndElt t]) ++ [EvEndDoc])) in Hn2.
+  rewrite (build_merge_doc TBL ef 106 (l_id L) t _ r2 _ Ht Hn2 HM2).
+  assert (Hni : no_data kidsE = true).
+  { unfold no_data in *. rewrite !forallb_app in Hn2. apply andb_true_iff in Hn2 as [Hn2 _]. apply andb_true_iff in Hn2 as [Hn2 _]. exact Hn2. }
+  assert (Hk : spec_forest kidsE kidsT).
+  { clear -Htc. subst kidsE kidsT. generalize true as f. induction ch as [|x r IHr]; intros f; [constructor|].
+    apply spec_forest_app; [apply spec_forest_nodes6; exact Htc|apply IHr]. }
+  pose proof (build_of_shape TBL ef 106 (l_id L) [] t (if wa then map (D5.attr_event5 (acan tag attrs)) attrs else []) kidsE [] kidsT eq_refl eq_refl Hk Ht Hni) as Hb.
+  cbn [app] in Hb. rewrite app_nil_r in Hb. exact Hb.
+Qed.
